@@ -634,6 +634,7 @@ func props() []rp.Prop {
 	return []rp.Prop{
 		rp.P[batch]{Name: "batch", Checks: ev.Pick(120, 9600) / ev.Shards(), Gen: genBatch, Check: check},
 		rp.P[discCase]{Name: "discovery", Checks: ev.Pick(40, 3000) / ev.Shards(), Gen: genDiscovery, Check: checkDiscovery},
+		rp.P[crowdCase]{Name: "crowd", Sweep: sweepCrowd, Check: checkCrowd},
 	}
 }
 
